@@ -12,6 +12,7 @@ CONSTANTS
   DetTime = FALSE
   Locked = TRUE
 INVARIANT NoError
+INVARIANT ServerProceeds
 INVARIANT NoLostWakeup
 INVARIANT FlagConsistent
 INVARIANT ActionsAtMostOnce
